@@ -914,10 +914,10 @@ theorem tdiv_mid' (b t : Int) (h : b ≤ t) : b ≤ (b + t).tdiv 2 ∧ (b + t).t
     omega
 
 theorem alignRecursion_ok (c : Costs) (ok : CostsOK c) (s : Seqs) (traps : Array Trap) (slot : Nat)
-    (minLen num den : Int) (hml : 0 ≤ minLen) :
+    (minLen num den : Int) (split : Bool) (hml : 0 ≤ minLen) :
     ∀ (fuel : Nat) (t : Trap) (st : AState), (∀ kh ∈ st.hits, HitP c s kh) →
       0 ≤ t.bottom → t.bottom ≤ t.top → t.top ≤ s.qlen →
-      ∀ kh ∈ (alignRecursion c s traps slot minLen num den fuel t st).hits, HitP c s kh := by
+      ∀ kh ∈ (alignRecursion c s traps slot minLen num den split fuel t st).hits, HitP c s kh := by
   intro fuel
   induction fuel with
   | zero => intro t st h _ _ _; exact h
@@ -966,9 +966,9 @@ theorem alignRecursion_ok (c : Costs) (ok : CostsOK c) (s : Seqs) (traps : Array
         · rw [h]; exact hhit
       · exact hst kh hk
     generalize (if acc = true then ({ covered := cov, hits := st.hits.push K } : AState) else st) = st1 at h1 ⊢
-    -- the two recursive calls
+    -- the two row-wise recursive calls
     have h2 : ∀ kh ∈ (if (decide (highEnd.maxI - c.maxIGap - t.bottom > minLen) && decide (highEnd.maxI - c.maxIGap < t.top - c.maxIGap)) = true
-               then alignRecursion c s traps slot minLen num den fuel { t with top := highEnd.maxI - c.maxIGap } st1
+               then alignRecursion c s traps slot minLen num den split fuel { t with top := highEnd.maxI - c.maxIGap } st1
                else st1).hits, HitP c s kh := by
       split
       · rename_i hc
@@ -977,22 +977,55 @@ theorem alignRecursion_ok (c : Costs) (ok : CostsOK c) (s : Seqs) (traps : Array
         exact ih _ st1 h1 hb0 (by simp only []; omega) (by simp only []; omega)
       · exact h1
     generalize (if (decide (highEnd.maxI - c.maxIGap - t.bottom > minLen) && decide (highEnd.maxI - c.maxIGap < t.top - c.maxIGap)) = true
-               then alignRecursion c s traps slot minLen num den fuel { t with top := highEnd.maxI - c.maxIGap } st1
+               then alignRecursion c s traps slot minLen num den split fuel { t with top := highEnd.maxI - c.maxIGap } st1
                else st1) = st2 at h2 ⊢
-    split
-    · rename_i hc
-      have := ok.gap
-      exact ih _ st2 h2 (by simp only []; omega) (by simp only []; omega) htq
-    · exact h2
+    have h3 : ∀ kh ∈ (if t.top - (lowEnd.maxI + c.maxIGap) > minLen
+               then alignRecursion c s traps slot minLen num den split fuel { t with bottom := lowEnd.maxI + c.maxIGap } st2
+               else st2).hits, HitP c s kh := by
+      split
+      · rename_i hc
+        have := ok.gap
+        exact ih _ st2 h2 (by simp only []; omega) (by simp only []; omega) htq
+      · exact h2
+    generalize (if t.top - (lowEnd.maxI + c.maxIGap) > minLen
+               then alignRecursion c s traps slot minLen num den split fuel { t with bottom := lowEnd.maxI + c.maxIGap } st2
+               else st2) = st3 at h3 ⊢
+    -- the two diagonal-wise calls of `split = true`: rows within those of `t`
+    cases split with
+    | false => exact h3
+    | true =>
+      simp only [if_true]
+      generalize hsb : (if highEnd.maxI - c.maxIGap > t.bottom then highEnd.maxI - c.maxIGap else t.bottom) = sideBottom
+      generalize hst' : (if lowEnd.maxI + c.maxIGap < t.top then lowEnd.maxI + c.maxIGap else t.top) = sideTop
+      have hsb1 : t.bottom ≤ sideBottom := by rw [← hsb]; split <;> omega
+      have hst1 : sideTop ≤ t.top := by rw [← hst']; split <;> omega
+      have h4 : ∀ kh ∈ (if (decide (sideTop - sideBottom > minLen) && decide (t.left ≤ highEnd.maxLeft - 1) && decide (highEnd.maxLeft - 1 < t.right)) = true
+                 then alignRecursion c s traps slot minLen num den true fuel
+                   { t with bottom := sideBottom, top := sideTop, right := highEnd.maxLeft - 1 } st3
+                 else st3).hits, HitP c s kh := by
+        split
+        · rename_i hc
+          simp only [Bool.and_eq_true, decide_eq_true_eq] at hc
+          exact ih _ st3 h3 (by simp only []; omega) (by simp only []; omega) (by simp only []; omega)
+        · exact h3
+      generalize (if (decide (sideTop - sideBottom > minLen) && decide (t.left ≤ highEnd.maxLeft - 1) && decide (highEnd.maxLeft - 1 < t.right)) = true
+                 then alignRecursion c s traps slot minLen num den true fuel
+                   { t with bottom := sideBottom, top := sideTop, right := highEnd.maxLeft - 1 } st3
+                 else st3) = st4 at h4 ⊢
+      split
+      · rename_i hc
+        simp only [Bool.and_eq_true, decide_eq_true_eq] at hc
+        exact ih _ st4 h4 (by simp only []; omega) (by simp only []; omega) (by simp only []; omega)
+      · exact h4
 
 /-- the trapezoids handed to the aligner lie within the query rows -/
 def TrapsIn (qlen : Int) (traps : Array Trap) : Prop :=
   ∀ t ∈ traps, 0 ≤ t.bottom ∧ t.bottom ≤ t.top ∧ t.top ≤ qlen
 
-theorem alignLoop_ok (c : Costs) (ok : CostsOK c) (s : Seqs) (traps : Array Trap) (k minLen num den : Int)
+theorem alignLoop_ok (c : Costs) (ok : CostsOK c) (s : Seqs) (traps : Array Trap) (k minLen num den : Int) (split : Bool)
     (hml : 0 ≤ minLen) (htr : TrapsIn s.qlen traps) :
     ∀ (n i : Nat) (st : AState), (∀ kh ∈ st.hits, HitP c s kh) →
-      ∀ kh ∈ (alignLoop c s traps k minLen num den n i st).hits, HitP c s kh := by
+      ∀ kh ∈ (alignLoop c s traps k minLen num den split n i st).hits, HitP c s kh := by
   intro n
   induction n with
   | zero => intro i st h; exact h
@@ -1006,19 +1039,25 @@ theorem alignLoop_ok (c : Costs) (ok : CostsOK c) (s : Seqs) (traps : Array Trap
       obtain ⟨t1, t2, t3⟩ := htr t hmem
       apply ih
       split
-      · exact alignRecursion_ok c ok s traps i minLen num den hml _ t st h t1 t2 t3
+      · exact alignRecursion_ok c ok s traps i minLen num den split hml _ t st h t1 t2 t3
       · exact h
 
-/-- **every hit the kernel model emits is under contract** (scoring `kS`) -/
-theorem emitted_ok (c : Costs) (ok : CostsOK c) (s : Seqs) (traps : List Trap) (k minLen num den : Int)
+/-- **every hit the kernel model emits is under contract** (scoring `kS`), for the recursion of the
+    source and for the one that also splits by diagonals -/
+theorem emittedWith_ok (split : Bool) (c : Costs) (ok : CostsOK c) (s : Seqs) (traps : List Trap) (k minLen num den : Int)
     (hml : 0 ≤ minLen) (htr : TrapsIn s.qlen traps.toArray) :
-    ∀ kh ∈ emitted c s traps k minLen num den, HitP c s kh := by
+    ∀ kh ∈ emittedWith split c s traps k minLen num den, HitP c s kh := by
   intro kh hk
-  unfold emitted at hk
+  unfold emittedWith at hk
   simp only [] at hk
-  refine alignLoop_ok c ok s traps.toArray k minLen num den hml htr _ 0 _ ?_ kh (Array.mem_toList_iff.mp hk)
+  refine alignLoop_ok c ok s traps.toArray k minLen num den split hml htr _ 0 _ ?_ kh (Array.mem_toList_iff.mp hk)
   intro kh h
   exact absurd h (Array.not_mem_empty kh)
+
+theorem emitted_ok (c : Costs) (ok : CostsOK c) (s : Seqs) (traps : List Trap) (k minLen num den : Int)
+    (hml : 0 ≤ minLen) (htr : TrapsIn s.qlen traps.toArray) :
+    ∀ kh ∈ emitted c s traps k minLen num den, HitP c s kh :=
+  emittedWith_ok false c ok s traps k minLen num den hml htr
 
 /-! ### with valid letters the kernel's scoring is the PALS matrix -/
 
@@ -1063,13 +1102,13 @@ theorem mem_slice {l : List Nat} {b e : Int} {x : Nat} (h : x ∈ slice l b e) :
 
 /-- **for sequences of valid letters every hit the kernel model emits satisfies the contract
     `HitOK` under the PALS matrix** (`+1 / −3`) -/
-theorem emitted_hitOK (c : Costs) (ok : CostsOK c) (hm : c.matchCost - c.diffCost = 1) (hd : c.diffCost = 3)
+theorem emittedWith_hitOK (split : Bool) (c : Costs) (ok : CostsOK c) (hm : c.matchCost - c.diffCost = 1) (hd : c.diffCost = 3)
     (s : Seqs) (hvt : ∀ x ∈ s.target.toList, validLetter x = true) (hvq : ∀ x ∈ s.query.toList, validLetter x = true)
     (traps : List Trap) (k minLen num den : Int) (hml : 0 ≤ minLen) (htr : TrapsIn s.qlen traps.toArray) :
-    ∀ kh ∈ emitted c s traps k minLen num den,
+    ∀ kh ∈ emittedWith split c s traps k minLen num den,
       HitOK (Biogo.PalsOracle.palsS 1 3) s.target.toList s.query.toList ⟨kh.h, kh.lowDiagonal, kh.highDiagonal⟩ := by
   intro kh hk
-  obtain ⟨h1, h2, h3, h4, h5, h6⟩ := emitted_ok c ok s traps k minLen num den hml htr kh hk
+  obtain ⟨h1, h2, h3, h4, h5, h6⟩ := emittedWith_ok split c ok s traps k minLen num den hml htr kh hk
   refine ⟨h1, h2, h3, ?_, h5, h6⟩
   intro hlt
   obtain ⟨aln, hg, hs⟩ := h4 hlt
@@ -1079,5 +1118,12 @@ theorem emitted_hitOK (c : Costs) (ok : CostsOK c) (hm : c.matchCost - c.diffCos
   apply scoreLin_kS_pals c hm hd
   · intro x hx; rw [hg.1] at hx; exact hvt x (mem_slice hx)
   · intro x hx; rw [hg.2] at hx; exact hvq x (mem_slice hx)
+
+theorem emitted_hitOK (c : Costs) (ok : CostsOK c) (hm : c.matchCost - c.diffCost = 1) (hd : c.diffCost = 3)
+    (s : Seqs) (hvt : ∀ x ∈ s.target.toList, validLetter x = true) (hvq : ∀ x ∈ s.query.toList, validLetter x = true)
+    (traps : List Trap) (k minLen num den : Int) (hml : 0 ≤ minLen) (htr : TrapsIn s.qlen traps.toArray) :
+    ∀ kh ∈ emitted c s traps k minLen num den,
+      HitOK (Biogo.PalsOracle.palsS 1 3) s.target.toList s.query.toList ⟨kh.h, kh.lowDiagonal, kh.highDiagonal⟩ :=
+  emittedWith_hitOK false c ok hm hd s hvt hvq traps k minLen num den hml htr
 
 end Biogo.Proofs.PalsKernelSound
